@@ -498,6 +498,16 @@ class Foreign(EngineBase):
                      else "ffff:ffff:ffff:ffff::", None, None],
                     ["eth0", 18 if platform != "win32" else -1,
                      "aa:bb:cc" if platform != "win32" else "aa-bb-cc",
+                     None, None, None],
+                    # hardware addresses longer than six octets (tunnels,
+                    # EUI-64, IP-over-InfiniBand) pass through untouched
+                    ["eth1", 18 if platform != "win32" else -1,
+                     (":" if platform != "win32" else "-").join(
+                         ["00", "11", "22", "33", "44", "55", "66", "77"]),
+                     None, None, None],
+                    ["ib0", 18 if platform != "win32" else -1,
+                     (":" if platform != "win32" else "-").join(
+                         "%02x" % i for i in range(20)),
                      None, None, None]]}, pid
 
     # ------------------------------------------------------------------
@@ -781,11 +791,22 @@ class Foreign(EngineBase):
             return res
         k.end_op()
         sep = "-" if platform == "win32" else ":"
+        raw_link = {r[0]: r[2] for r in (k.cfg.get("if_addrs") or [])
+                    if r[1] in (18, -1)}
+        for nic in ("eth0", "eth1", "ib0"):
+            for nt in addrs.get(nic, []):
+                if nt.family != psutil.AF_LINK:
+                    continue
+                raw = raw_link[nic].split(sep)
+                want = sep.join(raw + ["00"] * max(0, 6 - len(raw)))
+                if nt.address != want:
+                    V("C20.frontend", ["mac_padding"], "%s: hardware "
+                      "address %r reported as %r, expected %r (padded to "
+                      "six groups when shorter, untouched otherwise)" % (
+                          nic, raw_link[nic], nt.address, want))
         for nt in addrs.get("eth0", []) + addrs.get("eth1", []):
             if nt.family == psutil.AF_LINK:
-                if nt.address.count(sep) != 5:
-                    V("C20.frontend", ["mac_padding"], "MAC %r not padded "
-                      "to six groups" % (nt.address,))
+                pass
             elif platform == "win32" and nt.netmask and \
                     nt.family == socket.AF_INET:
                 import ipaddress
